@@ -449,7 +449,7 @@ func cmdLedgerUpdate(args []string) int {
 func cmdSyncContracts() int {
 	n := 0
 	filepath.Walk(contractsDir, func(p string, info os.FileInfo, err error) error {
-		if err == nil && !info.IsDir() && filepath.Base(p) == contractFileName {
+		if err == nil && !info.IsDir() && isContractFile(filepath.Base(p)) {
 			rel, _ := filepath.Rel(contractsDir, p)
 			dst := filepath.Join(repoDir, rel)
 			data, _ := os.ReadFile(p)
